@@ -89,6 +89,24 @@ def matrix_jobs(seed: int, start: int = 0, namesets=(0, 1, 2, 3), classes=("ih5"
     return jobs
 
 
+def many_patches_jobs(seed: int, start: int = 0, classes=("ih5", "mf"), npatches: int = 11) -> List[Dict[str, Any]]:
+    """A record that accumulates more than nine patches (two-digit patch indices in file names and user blocks),
+    reopened by name and by list, patched further, merged."""
+    jobs = []
+    for k, cls in enumerate(classes):
+        sc: List[Dict[str, Any]] = [{"op": "open", "mode": "w", "rname": "$main", "bylist": False}, {"op": "write"}, {"op": "commit"}]
+        for _ in range(npatches):
+            sc += [{"op": "create_patch"}, {"op": "write"}, {"op": "commit"}]
+        sc += [{"op": "close", "commit": True},
+               {"op": "open", "mode": "r", "rname": "$main", "bylist": False}, {"op": "close", "commit": True},
+               {"op": "open", "mode": "r+", "rname": "$main", "bylist": k % 2 == 1}, {"op": "write"}, {"op": "close", "commit": True},
+               {"op": "open", "mode": "a", "rname": "$main", "bylist": False}, {"op": "discard"}, {"op": "merge", "target": "merged1"},
+               {"op": "close", "commit": True}, {"op": "list_records"},
+               {"op": "open", "mode": "r", "rname": "$main", "bylist": True}, {"op": "close", "commit": True}]
+        jobs.append({"tid": start + k + 1, "cls": cls, "seed": seed + k, "nameset": k, "script": sc, "label": "many_patches"})
+    return jobs
+
+
 def random_proto_jobs(n: int, nops: int, seed: int, start: int = 0, classes=("ih5", "mf")) -> List[Dict[str, Any]]:
     jobs = []
     tid = start
